@@ -204,10 +204,20 @@ func (c *Cron) set(j *Job) error {
 		return err
 	}
 
-	j.at = schedule.Next(time.Now().UTC()).Add(c.Jitter())
+	next := schedule.Next(time.Now().UTC())
+	if next.IsZero() {
+		// Indexing the job under the zero time would fire it on
+		// every poll, forever.
+		return NoMoreOccurrences
+	}
+	j.at = next.Add(c.Jitter())
 
 	return nil
 }
+
+// NoMoreOccurrences is what 'set' reports for a cron expression that
+// has no occurrence in the future.
+var NoMoreOccurrences = errors.New("schedule has no future occurrence")
 
 func (s *Cron) Add(j *Job) error {
 	if err := j.init(); err != nil {
@@ -408,7 +418,13 @@ func (s *Cron) work(part string) func(tx *bolt.Tx) error {
 				job.Evict = true
 			}
 
-			if err = s.set(&job); err != nil {
+			if err = s.set(&job); err == NoMoreOccurrences {
+				// That was the last occurrence: retire
+				// the job as we retire a one-shot job.
+				job.Evict = true
+				err = s.set(&job)
+			}
+			if err != nil {
 				return err
 			}
 
